@@ -3,6 +3,7 @@ package props
 import (
 	"bytes"
 	"sort"
+	"strings"
 
 	ethcomm "github.com/ethereum/go-ethereum/common"
 	"github.com/ontio/ontology/common"
@@ -65,6 +66,7 @@ func runCluster(c *simkit.Ctx, c17 bool) {
 		for b := 0; b < nBlocks; b++ {
 			n := t.Pick(1, 2, 3, 2, 1, 1)
 			var txs []*types.Transaction
+			var descs []string
 			for i := 0; i < n; i++ {
 				raw, desc := w.genTxBytes(!strict)
 				tx, why := acceptTx(raw)
@@ -96,6 +98,7 @@ func runCluster(c *simkit.Ctx, c17 bool) {
 					}
 				}
 				txs = append(txs, tx)
+				descs = append(descs, desc)
 			}
 			if len(txs) > 0 {
 				withTx++
@@ -105,6 +108,29 @@ func runCluster(c *simkit.Ctx, c17 bool) {
 				w.commitAndSync(txs, "block")
 				if len(c.Known) > 0 {
 					return // nodes have diverged (known finding): nothing after it can be judged
+				}
+				// reach: did fee-paying transactions and price changes really execute
+				for i, tx := range txs {
+					nt, err := w.A.Store.GetEventNotifyByTx(tx.Hash())
+					if err != nil || nt == nil {
+						continue
+					}
+					if strings.HasPrefix(descs[i], "setGlobalParam") || strings.HasPrefix(descs[i], "createSnapshot") {
+						c.Logf("%s -> state %d", descs[i], nt.State)
+					}
+					switch {
+					case strings.HasPrefix(descs[i], "setGlobalParam") && nt.State == 1:
+						c.Probe("price_change_prepared")
+						w.prepared = true
+					case strings.HasPrefix(descs[i], "createSnapshot") && nt.State == 1 && w.prepared:
+						c.Probe("price_change_activated")
+						w.repriced = true
+					case tx.GasPrice > 0 && nt.GasConsumed > 0:
+						c.Probe("fee_paid")
+						if w.repriced && nt.GasConsumed > 20000*tx.GasPrice {
+							c.Probe("fee_above_minimum_after_price_change")
+						}
+					}
 				}
 			}
 			if !c17 && t.Prob(1, 6) {
